@@ -201,7 +201,13 @@ fn legacy_canonical(cu: u32, upper: u32) -> u32 {
 // Add all folded characters in the given interval to the given code point set.
 // This skips characters which fold to themselves.
 fn fold_interval(iv: Interval, recv: &mut CodePointSet) {
-    let overlaps = FOLDS.equal_range_by(|tr| {
+    fold_interval_in(iv, recv, true)
+}
+
+fn fold_interval_in(iv: Interval, recv: &mut CodePointSet, unicode: bool) {
+    // Simple case folding with u/v, the legacy upper-casing otherwise.
+    let table: &[FoldRange] = if unicode { &FOLDS } else { &TO_UPPERCASE };
+    let overlaps = table.equal_range_by(|tr| {
         if tr.first() > iv.last {
             Ordering::Greater
         } else if tr.last() < iv.first {
@@ -210,7 +216,7 @@ fn fold_interval(iv: Interval, recv: &mut CodePointSet) {
             Ordering::Equal
         }
     });
-    for fr in &FOLDS[overlaps] {
+    for fr in &table[overlaps] {
         debug_assert!(
             fr.transformed_from().overlaps(iv),
             "Interval does not overlap transform"
@@ -224,7 +230,7 @@ fn fold_interval(iv: Interval, recv: &mut CodePointSet) {
             // Optimization: when modulo is 1, every character in range gets transformed
             for cu in first_trans..(last_trans + 1) {
                 let cs = fr.add_delta(cu);
-                if cs != cu {
+                if cs != cu && (unicode || legacy_canonical(cu, cs) == cs) {
                     recv.add_one(cs);
                 }
             }
@@ -236,7 +242,9 @@ fn fold_interval(iv: Interval, recv: &mut CodePointSet) {
             let mut cu = start_aligned;
             while cu <= last_trans {
                 let cs = fr.add_delta(cu);
-                recv.add_one(cs);
+                if unicode || legacy_canonical(cu, cs) == cs {
+                    recv.add_one(cs);
+                }
                 cu += modulo;
             }
         }
@@ -245,10 +253,11 @@ fn fold_interval(iv: Interval, recv: &mut CodePointSet) {
 
 /// Find all characters that fold into the given interval and add them to the given code point set.
 /// This skips characters which fold to themselves.
-fn unfold_interval(iv: Interval, recv: &mut CodePointSet) {
+fn unfold_interval(iv: Interval, recv: &mut CodePointSet, unicode: bool) {
+    let table: &[FoldRange] = if unicode { &FOLDS } else { &TO_UPPERCASE };
     // Note: We still need to check all ranges because the relationship between
     // transformed_from and transformed_to intervals can be complex
-    for tr in FOLDS.iter() {
+    for tr in table.iter() {
         if !iv.overlaps(tr.transformed_to()) {
             continue;
         }
@@ -258,7 +267,11 @@ fn unfold_interval(iv: Interval, recv: &mut CodePointSet) {
         let last_source = tr.last();
 
         let mut process_cp = |cp| {
-            let tcp = tr.apply(cp);
+            let tcp = if unicode {
+                tr.apply(cp)
+            } else {
+                legacy_canonical(cp, tr.apply(cp))
+            };
             if tcp != cp && iv.contains(tcp) {
                 recv.add_one(cp);
             }
@@ -342,16 +355,22 @@ pub(crate) fn expand_code_point(c: u32, icase: bool, unicode: bool) -> Vec<u32> 
 }
 
 // Fold every character in \p input, then find all the prefolds.
-pub fn add_icase_code_points(mut input: CodePointSet) -> CodePointSet {
+pub fn add_icase_code_points(input: CodePointSet) -> CodePointSet {
+    add_icase_code_points_in(input, true)
+}
+
+/// As `add_icase_code_points`, closing the set under simple case folding if `unicode`
+/// (u/v flags) and under the legacy upper-casing relation otherwise.
+pub fn add_icase_code_points_in(mut input: CodePointSet, unicode: bool) -> CodePointSet {
     let mut folded = input.clone();
     for iv in input.intervals() {
-        fold_interval(*iv, &mut folded)
+        fold_interval_in(*iv, &mut folded, unicode)
     }
 
     // Reuse input storage.
     input.clone_from(&folded);
     for iv in folded.intervals() {
-        unfold_interval(*iv, &mut input);
+        unfold_interval(*iv, &mut input, unicode);
     }
     input
 }
